@@ -185,10 +185,11 @@ pub fn long_queues_cfg(out: &mut Outcome, ties: bool, thorough: bool, halt: bool
 /// involved), then read again: every view must equal the recomputation from `get_orders()`.
 /// A structure that recognises "nothing changed since I last looked" by a counter of 8 or 16
 /// bits is fooled exactly here.
-fn stale_after(period: usize, bid_side: bool, levels10: bool) -> Result<u64, (String, String)> {
-    fn go<const L: usize>(period: usize, bid_side: bool) -> Result<u64, (String, String)> {
+fn stale_after(period: usize, bid_side: bool, levels10: bool, at_touch: bool) -> Result<u64, (String, String)> {
+    fn go<const L: usize>(period: usize, bid_side: bool, at_touch: bool) -> Result<u64, (String, String)> {
         let mut b: OrderBook<L> = OrderBook::new(0, 1, true);
-        let (touch, behind) = if bid_side { (500u32, 498u32) } else { (500u32, 502u32) };
+        // (at_touch: the orders join and leave the touch level itself, which never empties)
+        let (touch, behind) = if at_touch { (500u32, 500u32) } else if bid_side { (500u32, 498u32) } else { (500u32, 502u32) };
         let mut t = 1u64;
         let mut place = |b: &mut OrderBook<L>, p: u32, v: u32, t: &mut u64| -> usize {
             *t += 1;
@@ -226,9 +227,9 @@ fn stale_after(period: usize, bid_side: bool, levels10: bool) -> Result<u64, (St
         Ok(period as u64 + 3)
     }
     if levels10 {
-        go::<10>(period, bid_side)
+        go::<10>(period, bid_side, at_touch)
     } else {
-        go::<3>(period, bid_side)
+        go::<3>(period, bid_side, at_touch)
     }
 }
 
@@ -241,10 +242,10 @@ pub fn periodic_staleness(out: &mut Outcome, thorough: bool) {
     let mut runs = 0u64;
     for &p in &periods {
         for bid in [false, true] {
-            for l10 in [false, true] {
+            for (l10, at_touch) in [(false, false), (true, false), (false, true), (true, true)] {
                 runs += 1;
-                let replay = json!({"engine": "bulk", "scenario": "read, mutate one side N times without reading, read", "mutations": p, "side": if bid { "bid" } else { "ask" }, "levels": if l10 { 10 } else { 3 }});
-                match util::subject(|| stale_after(p, bid, l10)) {
+                let replay = json!({"engine": "bulk", "scenario": "read, mutate one side N times without reading, read", "mutations": p, "side": if bid { "bid" } else { "ask" }, "levels": if l10 { 10 } else { 3 }, "mutated_level": if at_touch { "the touch level" } else { "two ticks behind the touch" }});
+                match util::subject(|| stale_after(p, bid, l10, at_touch)) {
                     Ok(Ok(k)) => ops += k,
                     Ok(Err((c, d))) => out.fail_other(&format!("bulk/read-mutate-read/{}", c), d, replay),
                     Err(m) => out.fail_other(&format!("bulk/read-mutate-read/panic/{}", util::panic_sig(&m)), m, replay),
